@@ -10,6 +10,7 @@ PROP = dict(
         ],
         level_text="Sampled: property-based testing with rapid over generated values/settings and generated JSON texts; a differential oracle (two readers) for the JSON half, a round-trip oracle for the ZSON half.",
         level_note="Trusted: gen (type/value generators, validated with Value.Validate), oracle.Key as identity of a value, encoding/json.Valid as the arbiter of what is valid JSON, the repo's own ZSON parser front end (syntax tree only) for classifying typedef-order failures. Not covered: coloured output, zson.Marshal/Unmarshal of Go values, decimal/128/256-bit primitives (not implemented in the repo), `super -z/-Z` CLI plumbing.",
+        env=dict(GOGC="400"),  # every zson.NewParser allocates a 64 KiB buffer and compiles two regexps: GC dominated otherwise
         technique="property-based testing (rapid): round-trip and differential oracles, root-cause classification by neutralisation",
         tests=[
             dict(name="TestZSONRoundTrip", quick=(8, 500), thorough=(16, 6000)),
